@@ -374,6 +374,11 @@ def fault_ops(r, nsn, rate, frags):
 
 def gen_case(r, focus):
     frag = r.choice(FRAGS)
+    # with fragment sizes <= 128 the SEDP dispose of a deleted reader is not noticed by the writer's
+    # participant at all (a discovery matter outside these properties): deletions use the default size
+    will_del = focus == "C03" and r.random() < 0.2
+    if will_del:
+        frag = 1344
     allow_frag = r.random() < (0.35 if focus in ("C01", "C02") else 0.15)
     depth = r.choice([0, 0, 0, 1, 2, 3])
     nkeys = r.choice([1, 1, 2, 3])
@@ -422,12 +427,8 @@ def gen_case(r, focus):
             ops.append(("q",))
     if focus == "C03":
         ops += [("wa",), ("t",)]
-        x = r.random()
-        if x < 0.12:
-            ops.append(("delR",))
-            gone = True
-        elif x < 0.2:
-            ops.append(("delP",))
+        if will_del:
+            ops.append(("delR",) if r.random() < 0.6 else ("delP",))
             gone = True
         if r.random() < 0.3:
             ops.append(wr())
@@ -436,7 +437,9 @@ def gen_case(r, focus):
                 ops.append(("t",))
     if r.random() < 0.85:
         ops.append(("q",))
-        ops.append(("heal", r.choice([2, 2, 3])))
+        # a fragmented sample needs up to two heartbeat rounds of its own (ACKNACK -> fragment 1, NACK_FRAG -> rest)
+        nfw = sum(1 for o in ops if o[0] == "w" and ser_len(o[2]) > frag)
+        ops.append(("heal", min(14, r.choice([2, 2, 3]) + 2 * nfw)))
         if focus == "C03":
             ops += [("wp",), ("wa",)]
             if not gone:
@@ -463,6 +466,6 @@ def gen_case(r, focus):
 
 def gen_for(focus):
     def gen(r, tier):
-        n = {"quick": 260, "search": 900, "thorough": 4000}[tier]
+        n = {"quick": 140, "search": 600, "thorough": 3000}[tier]
         return [gen_case(r, focus) for _ in range(n)]
     return gen
